@@ -55,6 +55,7 @@ type retInfo struct {
 	st      *State
 	results []Val
 	block   *ssa.BasicBlock
+	instr   ssa.Instruction // the return instruction (locals named in ensures resolve at this point)
 }
 
 type loopInfo struct {
